@@ -901,7 +901,10 @@ class Actor(object):
             # fresh results are equal to the cached object of the same key
             if obj is not None:
                 if op[0] == "nocache":
-                    twin_key = ("gettz", op[2])
+                    # (the key '' stands for "whatever TZ says now": the
+                    # object cached under it answers for the setting it was
+                    # built under, a fresh one for the current setting)
+                    twin_key = ("gettz", op[2]) if op[2] != "" else None
                 elif op[0] == "instance_off":
                     twin_key = ("tzoffset", op[2], float(op[3][1]))
                 elif op[0] == "mk_local":
